@@ -17,7 +17,11 @@ MUTANTS = [
     ('srm not scaled with wavelength', [(M + 'Mininec.f', "self.srm     = .0001 * w", "self.srm     = .0001 * 42.8")], []),
 ]
 MUTANTS = [m_ for m_ in MUTANTS if m_[2]]
+MUTANTS += [
+    ('non-vertical test by the sign of the direction cosines', [('pulse.Pulse.is_non_vertical_grounded', "and (self.segs [0].dirvec [0] or self.segs [0].dirvec [1])", "and (self.segs [0].dirvec [:2] > 0).any ()")], ['direction-sign']),
+]
 REFACTORS = [
+    ('non-vertical test by absolute value', [('pulse.Pulse.is_non_vertical_grounded', "and (self.segs [0].dirvec [0] or self.segs [0].dirvec [1])", "and bool ((np.abs (self.segs [0].dirvec [:2]) > 0).any ())")]),
     ('scale with factor first', [(M + 'Wire.scale', "self.p1 = self.p1 * factor", "self.p1 = factor * self.p1"), (M + 'Wire.scale', "self.p2 = self.p2 * factor", "self.p2 = factor * self.p2")]),
     ('translate via temporary', [(M + 'Curve.translate', "self.segends = self.segends + translation", "moved = self.segends + translation\n        self.segends = moved")]),
     ('angle via np.deg2rad-like product reorder', [(M + 'Rotation_Matrix.__init__', "        if rotation [0]:\n            a = rotation [0] / 180 * np.pi", "        if rotation [0]:\n            a = np.pi * rotation [0] / 180")]),
